@@ -7,6 +7,8 @@ import (
 	"fmt"
 	"os"
 	"path/filepath"
+	"runtime"
+	"runtime/debug"
 	"sort"
 	"strings"
 	"testing"
@@ -75,6 +77,7 @@ type WorkerResult struct {
 	Samples     []Sample       `json:"samples"`
 	WallS       float64        `json:"wall_s"`
 	Replay      *ReplayResult  `json:"replay,omitempty"`
+	MemAbort    string         `json:"mem_abort,omitempty"`
 }
 
 type ReplayResult struct {
@@ -94,9 +97,27 @@ type worker struct {
 	pairs  map[uint64]struct{}
 	finds  map[string]*Finding
 	start  time.Time
+	tick   int
 }
 
 func (w *worker) timeUp() bool {
+	if w.res.MemAbort != "" {
+		return true
+	}
+	w.tick++
+	if w.tick%64 == 0 {
+		// a broken tree may make every run leak (hung tasks keep their buffers): never let a worker eat the machine
+		var ms runtime.MemStats
+		runtime.ReadMemStats(&ms)
+		if ms.HeapAlloc > 1500<<20 {
+			debug.FreeOSMemory()
+			runtime.ReadMemStats(&ms)
+			if ms.HeapAlloc > 1500<<20 {
+				w.res.MemAbort = fmt.Sprintf("heap %d MiB after %d runs: remaining runs skipped", ms.HeapAlloc>>20, w.tick)
+				return true
+			}
+		}
+	}
 	return w.spec.DeadlineS > 0 && time.Since(w.start).Seconds() > w.spec.DeadlineS
 }
 
